@@ -29,7 +29,18 @@ Record Inv (s : st) : Prop := {
   i_deliv : forall i val, In (i, val) (delivered s) -> In (i, val) (pushed s) /\
             (xver (C s) false i < ver (sslot s i) \/ exists u vu, thv s u vu /\ vrole vu = false /\ vown vu i);
   i_dnd : NoDup (map fst (delivered s));
+  i_cons : forall i val, In (i, val) (pushed s) -> xver (C s) false i < ver (sslot s i) -> In (i, val) (delivered s);
   i_err : err s = false }.
+
+Lemma nodup_fst_fun : forall (l : list (Z * Z)) i v v', NoDup (map fst l) -> In (i, v) l -> In (i, v') l -> v = v'.
+Proof.
+  induction l as [|[a b] l IH]; intros i v v' ND H H'; [destruct H|]. cbn in ND. inversion ND as [|x l' NI ND']; subst.
+  destruct H as [H|H], H' as [H'|H'].
+  - congruence.
+  - inversion H; subst. exfalso. apply NI. apply in_map_iff. exists (i, v'). auto.
+  - inversion H'; subst. exfalso. apply NI. apply in_map_iff. exists (i, v). auto.
+  - eapply IH; eauto.
+Qed.
 
 (* ---------------- views ---------------- *)
 Lemma thv_fun : forall s u vu vu', thv s u vu -> thv s u vu' -> vu = vu'.
@@ -154,6 +165,7 @@ Proof.
     + rewrite (thv_fun _ _ _ _ H TT) in OWN, RO. destruct (OW i OWN) as (v' & E & OWN' & RO'). exists t, v'. split; auto. split; auto. congruence.
     + exists u, vu. auto.
   - rewrite DS. apply (i_dnd _ I).
+  - intros i val IN LT. rewrite PS in IN. rewrite DS. rewrite SV, CC in LT. apply (i_cons _ I i val IN LT).
   - rewrite ER. apply (i_err _ I).
 Qed.
 
@@ -227,6 +239,7 @@ Proof.
   - intros i val IN. rewrite DS in IN. rewrite SV, CC, PS. destruct (i_deliv _ I i val IN) as [A [B|(u & vu & H & RO & OWN)]]; split; auto.
     right. exists u, vu. split; auto. apply KP; auto. eapply NOT; eauto.
   - rewrite DS. apply (i_dnd _ I).
+  - intros i val IN LT. rewrite PS in IN. rewrite DS. rewrite SV, CC in LT. apply (i_cons _ I i val IN LT).
   - rewrite ER. apply (i_err _ I).
 Qed.
 
@@ -367,6 +380,15 @@ Proof.
         -- right. exists t, v'. split. exists th'; auto. split; auto. congruence.
       * right. exists u, vu. auto.
   - rewrite DS. apply (i_dnd _ I).
+  - intros i val IN LT. rewrite PS in IN. rewrite DS. rewrite CC in LT.
+    destruct (Nat.eq_dec (tsl (C s) i) (tsl (C s) i0)) as [EQ|NEQ].
+    + destruct (HIT i EQ) as [H1 H2]. assert (V' : ver (sslot s' i) = xver (C s) r i0 + 1) by (unfold cs in H1; congruence). rewrite V' in LT.
+      destruct (i_pushed _ I i val IN) as [Hi _].
+      destruct (Z_lt_le_dec (xver (C s) false i) (ver (sslot s i))) as [LT0|GE]. apply (i_cons _ I i val IN LT0).
+      assert (EV : ver (sslot s i) = xver (C s) false i) by (rewrite H2, E0 in *; lia).
+      destruct (K1 false i Hi EQ EV) as [R1 R2]. subst i. rewrite <- R1 in P0. destruct P0 as (_ & val' & IND).
+      destruct (i_deliv _ I _ _ IND) as [INP _]. rewrite (nodup_fst_fun _ _ _ _ (i_pnd _ I) IN INP). exact IND.
+    + specialize (SAME i NEQ). assert (VS : ver (sslot s' i) = ver (sslot s i)) by (unfold cs in SAME; congruence). rewrite VS in LT. apply (i_cons _ I i val IN LT).
   - rewrite ER. apply (i_err _ I).
 Qed.
 
@@ -499,6 +521,9 @@ Proof.
   - intros i val IN. rewrite DS in IN. rewrite SVER, CC. destruct (i_deliv _ I i val IN) as [A [B|(u & vu & H & RO & OWN)]]; (split; [apply PSI; auto|]); auto.
     right. exists u, vu. split; auto. apply KP; auto. eapply NOTt; eauto.
   - rewrite DS. apply (i_dnd _ I).
+  - intros i val IN LT. rewrite DS. rewrite SVER, CC in LT. apply PSI in IN. destruct IN as [IN|(k & Hk & EQ)].
+    + apply (i_cons _ I i val IN LT).
+    + inversion EQ. subst i val. destruct (RF (b + Z.of_nat k) ltac:(lia)) as (V & _). rewrite V in LT. unfold xver in LT. lia.
   - pose proof (i_err _ I). congruence.
 Qed.
 
@@ -607,6 +632,7 @@ Proof.
     destruct (i_deliv _ I _ _ IN) as [A [B|(u & vu & H & RO & OWN)]]. lia.
     pose proof (NOTt _ _ _ H OWN) as NE. eapply (i_disj _ I u t vu v (b + Z.of_nat k)); eauto; try congruence.
     apply (vown_inhold s); auto. apply (i_tf _ I u); auto.
+  - intros i val IN LT. rewrite PS in IN. rewrite SVER, CC in LT. apply DSI. left. apply (i_cons _ I i val IN LT).
   - pose proof (i_err _ I). congruence.
 Qed.
 End Pres.
